@@ -12,6 +12,51 @@ package types
 //@ func (*Decoder).DecodeUint
 //@   props C12 C13 C14
 //@   spec nat.smt2
+//@   opt inline
 //@   ensures [cases spec.nat_l(result0) 0..8] strict: result1 == nil ==> len(data) >= int(spec.nat_len(result0)) && forall(i, 0, 9, i < int(spec.nat_len(result0)) ==> data[i] == spec.nat_byte(result0, uint64(i)))
 //@   ghost x uint64
 //@   ensures [cases spec.nat_l(x) 0..8] complete: (len(data) >= int(spec.nat_len(x)) && forall(i, 0, 9, i < int(spec.nat_len(x)) ==> data[i] == spec.nat_byte(x, uint64(i)))) ==> (result1 == nil && result0 == x)
+// ---- the protocol codec's decoder (C13, C14) ----
+//@ pred wf_dec(d) = d != nil && d.buf != nil && d.buf.i >= 0 && d.buf.i <= int64(len(d.buf.s)) && len(d.buf.s) < 4294967296
+//@ pred params_ok() = ValidatorsCount >= 1 && ValidatorsCount <= 1023 && CoresCount >= 1 && CoresCount <= 341 && EpochLength >= 1 && EpochLength <= 600 && AvailBitfieldBytes >= 1 && AvailBitfieldBytes <= 43 && MaxLookupAge >= 1 && MaxLookupAge <= 14400
+
+//@ func (*Decoder).decodeUintFromReader
+//@   props C12 C13 C14
+//@   spec nat.smt2
+//@   requires wf: wf_dec(d)
+//@   ensures wf: wf_dec(d)
+//@   let i0 = d.buf.i
+//@   ensures [cases spec.nat_l(result0) 0..8] strict: result1 == nil ==> d.buf.i == i0 + int64(spec.nat_len(result0)) && forall(k, 0, 9, k < int(spec.nat_len(result0)) ==> d.buf.s[int(i0)+k] == spec.nat_byte(result0, uint64(k)))
+//@   ghost x uint64
+//@   ensures [cases spec.nat_l(x) 0..8] complete: (int64(len(d.buf.s)) - i0 >= int64(spec.nat_len(x)) && forall(k, 0, 9, k < int(spec.nat_len(x)) ==> d.buf.s[int(i0)+k] == spec.nat_byte(x, uint64(k)))) ==> (result1 == nil && result0 == x)
+//@   assigns *d.buf
+
+//@ func (*Decoder).DecodeLength
+//@   props C13 C14
+//@   requires wf: wf_dec(d)
+//@   ensures wf: wf_dec(d)
+//@   assigns *d.buf
+
+//@ func (*Decoder).DecodeInteger
+//@   props C13 C14
+//@   requires wf: wf_dec(d)
+//@   ensures wf: wf_dec(d)
+//@   assigns *d.buf
+
+//@ func (*Decoder).ReadPointerFlag
+//@   props C13 C14
+//@   requires wf: wf_dec(d)
+//@   ensures wf: wf_dec(d)
+//@   assigns *d.buf
+
+//@ func (*Decoder).ReadLegnthFlag
+//@   props C13 C14
+//@   requires wf: wf_dec(d)
+//@   ensures wf: wf_dec(d)
+//@   assigns *d.buf
+
+//@ func (*Decoder).ReadErrorByte
+//@   props C13 C14
+//@   requires wf: wf_dec(d)
+//@   ensures wf: wf_dec(d)
+//@   assigns *d.buf
